@@ -17,6 +17,10 @@ CONSTANTS
   RangeSet <- RangesSim
   LockTypes = {"R", "W"}
   TickSet = {}
+  GateOpen = "prev"
+  FirstSeqs <- FirstOne
+  LaxSet = {"cache"}
+  RejSet = {"BAD_RANGE"}
   AnonOps <- RW
   PreClients = {1, 2}
   MaxConf = 6
